@@ -17,3 +17,17 @@ Theorem C20_refuted_displaced_future :
   graph [mkPC "f" [AVal 1] []; mkPC "f" [AVal 1] []; mkPC "g" [AFut 1] []] = None.
 Proof. exact displaced_future_keyerror. Qed.
 Print Assumptions C20_refuted_displaced_future.
+
+(* the positive half: for every program whose calls are pairwise distinct (no two equal hashes) and
+   whose future arguments refer to earlier calls, the graph handed to the drawing routine has
+   exactly one box per submitted call and one incoming edge per argument (one per element for a
+   list consisting only of futures, one value node and edge otherwise) *)
+From EL Require Import Proofs.PlotGeneral.
+Theorem C20_partial_graph_of_distinct_calls :
+  forall calls hs,
+    calls_ok calls 0 = true -> hashes calls [] = Some hs -> NoDup hs ->
+    exists g, graph calls = Some g
+              /\ count_boxes g = spec_boxes calls
+              /\ List.length (snd g) = spec_edges calls.
+Proof. exact graph_of_distinct_calls. Qed.
+Print Assumptions C20_partial_graph_of_distinct_calls.
